@@ -165,6 +165,28 @@ Definition ctx_get (c : ctxmem) (k : gostring) : goval * goerror :=
 Definition ctx_exists (c : ctxmem) (k : gostring) : bool :=
   match smap_get c k with Some _ => true | None => false end.
 
+Definition err_cast : gostring :=               (* "failed to cast value to type %T" *)
+  [102;97;105;108;101;100;32;116;111;32;99;97;115;116;32;118;97;108;117;101;32;116;111;32;116;121;112;101;32;37;84].
+
+(* memoryState[int64].Get(key) = memoryStateRetrieve(key, contextMemory.Get):
+   the stored value asserted to T = int64; the zero value and an error otherwise *)
+Definition ctx_get_int64 (c : ctxmem) (k : gostring) : Z * goerror :=
+  match ctx_get c k with
+  | (v, ErrNil) =>
+      match as_int64 v with
+      | (z, true) => (z, ErrNil)
+      | (_, false) => (0, Err err_cast)
+      end
+  | (_, e) => (0, e)
+  end.
+
+(* ------------------------------------------------------------------ API streams *)
+
+(* what the translated quota code observes of an APIStream: its request id
+   (GetID()) and what the quota's extractCountF yields for it (1 for a
+   request-counting quota, the value at counter_value_path otherwise) *)
+Record apistream := mk_apistream { as_id : gostring; as_count : Z * goerror }.
+
 (* ------------------------------------------------------------------ slices *)
 
 Definition slice_len {A} (l : list A) : Z := Z.of_nat (length l).
@@ -218,3 +240,59 @@ Proof.
   - apply gostring_eqb_eq in E1; subst. now rewrite gostring_eqb_refl in E2.
   - apply gostring_eqb_eq in E2; subst. now rewrite gostring_eqb_refl in E1.
 Qed.
+
+Section MapFacts.
+  Context {K V : Type} (keqb : K -> K -> bool).
+  Hypothesis keqb_eq : forall a b, keqb a b = true <-> a = b.
+
+  Lemma keqb_refl a : keqb a a = true.
+  Proof. now apply keqb_eq. Qed.
+
+  Lemma keqb_neq a b : a <> b -> keqb a b = false.
+  Proof. intros H. destruct (keqb a b) eqn:E; [|reflexivity]. apply keqb_eq in E. contradiction. Qed.
+
+  Lemma map_get_set_same (m : list (K * V)) k v : map_get keqb (map_set keqb m k v) k = Some v.
+  Proof.
+    induction m as [|[k' v'] m IH]; cbn.
+    - now rewrite keqb_refl.
+    - destruct (keqb k k') eqn:E; cbn.
+      + now rewrite keqb_refl.
+      + now rewrite E.
+  Qed.
+
+  Lemma map_get_set_other (m : list (K * V)) k k' v :
+    k' <> k -> map_get keqb (map_set keqb m k v) k' = map_get keqb m k'.
+  Proof.
+    intros Hn. induction m as [|[k0 v0] m IH]; cbn.
+    - now rewrite (keqb_neq k' k Hn).
+    - destruct (keqb k k0) eqn:E; cbn.
+      + apply keqb_eq in E; subst k0. now rewrite (keqb_neq k' k Hn).
+      + destruct (keqb k' k0); [reflexivity|exact IH].
+  Qed.
+
+  Lemma map_get_delete_same (m : list (K * V)) k : map_get keqb (map_delete keqb m k) k = None.
+  Proof.
+    induction m as [|[k' v'] m IH]; cbn; [reflexivity|].
+    destruct (keqb k k') eqn:E; [exact IH|]. cbn. now rewrite E.
+  Qed.
+
+  Lemma map_get_delete_other (m : list (K * V)) k k' :
+    k' <> k -> map_get keqb (map_delete keqb m k) k' = map_get keqb m k'.
+  Proof.
+    intros Hn. induction m as [|[k0 v0] m IH]; cbn; [reflexivity|].
+    destruct (keqb k k0) eqn:E; cbn.
+    - apply keqb_eq in E; subst k0. now rewrite (keqb_neq k' k Hn).
+    - destruct (keqb k' k0); [reflexivity|exact IH].
+  Qed.
+End MapFacts.
+
+Lemma smap_get_set_same {V} (m : smap V) k v : smap_get (smap_set m k v) k = Some v.
+Proof. exact (map_get_set_same gostring_eqb gostring_eqb_eq m k v). Qed.
+Lemma smap_get_set_other {V} (m : smap V) k k' v :
+  k' <> k -> smap_get (smap_set m k v) k' = smap_get m k'.
+Proof. exact (map_get_set_other gostring_eqb gostring_eqb_eq m k k' v). Qed.
+Lemma smap_get_delete_same {V} (m : smap V) k : smap_get (smap_delete m k) k = None.
+Proof. exact (map_get_delete_same gostring_eqb m k). Qed.
+Lemma smap_get_delete_other {V} (m : smap V) k k' :
+  k' <> k -> smap_get (smap_delete m k) k' = smap_get m k'.
+Proof. exact (map_get_delete_other gostring_eqb gostring_eqb_eq m k k'). Qed.
